@@ -25,6 +25,8 @@ GATE_RE = re.compile(r"\b(Admitted|admit|Axiom|Axioms|Parameter|Parameters|Conje
                      r"Unset Guard Checking|Unset Positivity Checking|Unset Universe Checking|bypass_check|"
                      r"type-in-type|impredicative-set|native_compute)\b")
 
+SECT_RE = re.compile(r"(?m)^\s*(Section|End|Variables?|Hypothes[ie]s|Context)\b\s*(\w*)")
+
 # ---------------------------------------------------------------- property table
 # props: Coq file under theories/Props; harness: run the Go harness + correspondence;
 # gen: generated files whose obligations belong to the property (informational)
@@ -111,6 +113,18 @@ def grep_gate():
         txt2 = re.sub(r"\(\*.*?\*\)", " ", txt, flags=re.S)
         for m in GATE_RE.finditer(txt2):
             bad.append("%s: %s" % (os.path.relpath(v, ROOT), m.group(0)))
+        # a Variable / Hypothesis / Context outside every Section declares an axiom
+        depth = 0
+        opened = []
+        for m in SECT_RE.finditer(txt2):
+            kw, name = m.group(1), m.group(2)
+            if kw == "Section":
+                opened.append(name)
+            elif kw == "End":
+                if opened and opened[-1] == name:
+                    opened.pop()
+            elif not opened:
+                bad.append("%s: top-level %s" % (os.path.relpath(v, ROOT), kw))
     proj = open(os.path.join(COQ, "_CoqProject")).read()
     for w in ("type-in-type", "impredicative-set", "-vos", "-vok", "bypass"):
         if w in proj:
